@@ -218,7 +218,15 @@ impl Block for AuDecode {
                 self.state = DecodeState::WaitingHeader(data_offset as usize);
             }
             DecodeState::WaitingHeader(data_offset) => {
-                let header_rest_len = data_offset - 8;
+                // Fixed header fields up to and including the channel count.
+                let header_rest_len = match data_offset.checked_sub(8) {
+                    Some(n) if n >= 16 => n,
+                    _ => {
+                        return Err(Error::msg(format!(
+                            ".au data offset {data_offset} is smaller than the header"
+                        )));
+                    }
+                };
                 if i.len() < header_rest_len {
                     return Ok(BlockRet::WaitForStream(&self.src, header_rest_len));
                 }
@@ -239,6 +247,8 @@ impl Block for AuDecode {
                         "AU block only supports one channel currently, got {channels}"
                     )));
                 }
+                // The data starts after the header, annotation included.
+                i.consume(header_rest_len);
                 self.state = DecodeState::Data;
             }
             DecodeState::Data => {
